@@ -57,7 +57,16 @@ Shower(kind, flav, y, sec, cands, model) ==
                 res |-> Fractions(kind, flav, y, sec, cands)]
     /\ UNCHANGED <<all, kids, nroots>>
 
+(* cross sections: relations on the decade lattice 10^3 .. 10^12 GeV (the values themselves are numerical) *)
+Sigma(model, flav, anti) ==
+    /\ all = <<>> /\ last.op = "Init"
+    /\ last' = [op |-> "Sigma", model |-> model, flav |-> flav, anti |-> anti, decades |-> <<3, 12>>,
+                additive |-> (model = "CTW"),           \* cc + nc = total is claimed for the default model
+                relations |-> {"positive", "increasing", "length_is_inverse"}]
+    /\ UNCHANGED <<all, kids, nroots>>
+
 Next == \/ \E k \in 1..2 : NewEvent(k)
+        \/ \E model \in {"GQRS", "CTW"}, flav \in {"e", "mu", "tau"}, anti \in BOOLEAN : Sigma(model, flav, anti)
         \/ \E p \in 1..MaxParticles, n \in 1..2, s \in BOOLEAN : AddChildren(p, n, s)
         \/ AddToForeign
         \/ \E kind \in {"cc", "nc"}, flav \in {"e", "mu", "tau"}, y \in {0, 2, 5, 9, 10}, sec \in BOOLEAN, cands \in Cands,
